@@ -881,7 +881,15 @@ impl Property for C03 {
         // bias towards unsatisfiable instances
         base.max_root_reqs = 5;
         base.max_root_constraints = 3;
-        let mut sc = std_scenario(seed, &swarm(seed, base, tier), None);
+        if seed % 5 == 0 {
+            // larger universes: conflicts whose proof chains several learnt clauses
+            base.max_packages = 14;
+            base.max_solvables = 72;
+            base.max_candidates = 6;
+        }
+        let params = swarm(seed, base, tier);
+        let mut sc = std_scenario(seed, &params, None);
+        maybe_forest(seed, &mut sc, &params, 40, tier);
         maybe_cyclic_conflict(seed, &mut sc, 40);
         sc.render = true;
         sc.capture_state = true;
@@ -1715,6 +1723,13 @@ impl Property for C10 {
             if r.chance(1, 60) {
                 let width = r.range(31, 60);
                 let (ww, wp) = crate::gen::gen_wide(&mut r, width);
+                w = ww;
+                for p in ps.iter_mut() {
+                    *p = wp.clone();
+                }
+            } else if r.chance(1, 25) {
+                // one requirement shared by an installed solvable and eagerly encoded siblings
+                let (ww, wp) = crate::gen::shared_requirement(&mut r);
                 w = ww;
                 for p in ps.iter_mut() {
                     *p = wp.clone();
